@@ -28,7 +28,7 @@ impl MOp {
     }
 }
 
-pub struct Case { pub w: u16, pub h: u16, pub hz: u8, pub ops: Vec<MOp> }
+pub struct Case { pub w: u16, pub h: u16, pub hz: u8, pub ops: Vec<MOp>, pub small: bool }
 
 fn short(rng: &mut Rng, w: u16, multiline: bool) -> String {
     let len = match rng.below(8) { 0 => 0, 1 => w as u64, 2 => w as u64 + 1, _ => rng.below(w as u64 + 2) };
@@ -96,7 +96,7 @@ pub fn gen_case(rng: &mut Rng, bottom: bool) -> Case {
         let mut live: Vec<usize> = (0..nbars).filter(|&k| alive[k]).collect();
         while !live.is_empty() { let i = rng.below(live.len() as u64) as usize; let k = live.remove(i); ops.push(MOp::Bar(k, BOp::Drop)); }
     }
-    Case { w, h, hz, ops }
+    Case { w, h, hz, ops, small: false }
 }
 
 /// Structured histories around the zombie / stale-frame bookkeeping: a few bars (some two rows high) are
@@ -139,7 +139,7 @@ pub fn gen_scenario(rng: &mut Rng) -> Case {
     logn += 1; ops.push(MOp::MpPrintln(format!("L{logn}")));
     for k in 0..nb { if alive[k] && rng.chance(1, 2) { ops.push(MOp::Bar(k, BOp::Tick)); } }
     if rng.chance(1, 2) { for k in 0..nb { if alive[k] { ops.push(MOp::Bar(k, BOp::Drop)); } } }
-    Case { w, h: 24, hz, ops }
+    Case { w, h: 24, hz, ops, small: false }
 }
 
 pub fn encode(c: &Case) -> String {
@@ -268,7 +268,7 @@ pub fn run_case(c: &Case) -> (String, String) {
         // with a rate-limited target the screen shows the last painted frame, so the frame is judged at the
         // operations that painted one: every member's stored lines are refreshed by each of its draw requests,
         // painted or not, hence a painted frame shows every bar's latest requested rendering
-        if verdict == "ok" && (c.hz == 0 || rec.flushes() > flushes_before) && !bottom_used && !cleared_since_draw && checkable == logs.len() && rec.flushes() > 0 {
+        if verdict == "ok" && !c.small && (c.hz == 0 || rec.flushes() > flushes_before) && !bottom_used && !cleared_since_draw && checkable == logs.len() && rec.flushes() > 0 {
             let region: Vec<String> = rows[at.min(rows.len())..].to_vec();
             let mut pos_of: Vec<(usize, usize, usize)> = Vec::new();  // (bar, start, len)
             let mut claimed = vec![false; region.len()];
@@ -294,7 +294,7 @@ pub fn run_case(c: &Case) -> (String, String) {
             }
         }
     }
-    if verdict == "ok" && !bottom_used && !any_remove && !order_ambiguous && !cleared_since_draw && !disturbed_after_finish && bars.iter().all(|b| b.pb.is_none()) && !bars.is_empty() {
+    if verdict == "ok" && !c.small && !bottom_used && !any_remove && !order_ambiguous && !cleared_since_draw && !disturbed_after_finish && bars.iter().all(|b| b.pb.is_none()) && !bars.is_empty() {
         let rows = rec.rows();
         let mut at = 0usize;
         for l in &logs { let chunks = wrap(l, w); if let Some(i) = (at..rows.len()).find(|&i| i + chunks.len() <= rows.len() && (0..chunks.len()).all(|j| rows[i + j] == chunks[j])) { at = i + chunks.len(); } }
@@ -314,6 +314,34 @@ pub fn run_case(c: &Case) -> (String, String) {
     for b in bars.iter_mut() { if let Some(pb) = b.pb.take() { std::mem::forget(pb); } }
     std::mem::forget(mp);
     (obs, verdict)
+}
+
+/// C05 on MultiProgress targets: always rate limited, so that "skipped draws lose nothing" is judged at every
+/// painted frame (each member shows its latest requested rendering)
+pub fn run_limited(seed: u64, tier: &str, out: &mut Out) {
+    let mut rng = Rng::new(seed ^ 0x05);
+    let n = if tier == "thorough" { 100_000 } else { 2_000 };
+    for _ in 0..n {
+        let mut c = if rng.chance(1, 3) { gen_scenario(&mut rng) } else { gen_case(&mut rng, false) };
+        if c.hz == 0 { c.hz = *rng.pick(&[1u8, 1, 20, 255]); }
+        let case = encode(&c);
+        let (obs, verdict) = run_case(&c);
+        out.emit(&case, &format!("{obs} ORACLE {verdict}"));
+    }
+}
+
+/// C19: the same histories on terminals too small for all bars (the frame-level oracles need the whole frame and
+/// are off; correspondence with the model and the log oracle remain)
+pub fn run_small(seed: u64, tier: &str, out: &mut Out) {
+    let mut rng = Rng::new(seed ^ 0x19);
+    let n = if tier == "thorough" { 100_000 } else { 2_000 };
+    for _ in 0..n {
+        let mut c = if rng.chance(1, 4) { gen_scenario(&mut rng) } else { gen_case(&mut rng, false) };
+        c.small = true; c.h = *rng.pick(&[2u16, 3, 4, 5, 6]); c.w = *rng.pick(&[3u16, 4, 6, 10]);
+        let case = encode(&c);
+        let (obs, verdict) = run_case(&c);
+        out.emit(&case, &format!("{obs} ORACLE {verdict}"));
+    }
 }
 
 pub fn run(seed: u64, tier: &str, out: &mut Out, bottom: bool) {
